@@ -151,6 +151,13 @@ class Theory:
             for _, v in sorted(inst.items()):
                 if not v.is_tconst():
                     raise TheoryException("When overloading %s with %s: cannot instantiate to type variables" % (aT, T))
+
+            # Make sure no overlapping instance is already declared
+            insts = self.get_data("overload")[name]
+            for prevT in insts:
+                if not prevT.is_apart(T):
+                    raise TheoryException("Constant %s :: %s already exists" % (name, prevT))
+            self.add_data("overload", name, insts + (T,))
         else:
             # Make sure this name does not already occur in the theory
             if self.has_term_sig(name):
@@ -224,9 +231,12 @@ class Theory:
             return tuple()
 
     def add_overload_const(self, name):
-        """Add a constant as an overloaded constant."""
+        """Add a constant as an overloaded constant. Keep the tuple of
+        types of the instances declared so far.
+
+        """
         data = self.get_data("overload")
-        data[name] = True
+        data[name] = tuple()
 
     def is_overload_const(self, name):
         """Whether the given name is an overloaded constant."""
